@@ -16,9 +16,12 @@ import (
 	"github.com/fatedier/frp/pkg/msg"
 	"github.com/fatedier/frp/pkg/util/util"
 
+	v1 "github.com/fatedier/frp/pkg/config/v1"
+
 	"verif/mc/drv"
 	"verif/mc/vs"
 	sw "verif/mc/worlds/srvworld"
+	tw "verif/mc/worlds/tunworld"
 )
 
 const sk = "secret-key-1"
@@ -369,6 +372,61 @@ func scRace(ptype, what string) func(x *vs.Exec) {
 	}
 }
 
+// realvisitor: the same transparency clause with frp's own programs on both sides — a real frpc owning the stcp proxy, a
+// real frpc running the visitor — for every combination of the two sides' encryption / compression flags; the stream
+// carries a message, stays silent for 75 s (longer than every hand-shake deadline on the path) and carries another.
+func scRealVisitor(flags string) func(x *vs.Exec) {
+	vEnc, vComp, pEnc, pComp := flags[0] == '1', flags[1] == '1', flags[2] == '1', flags[3] == '1'
+	return func(x *vs.Exec) {
+		defer sw.Guard()
+		w := tw.New(x, sw.Opt{AllowPorts: sw.P(20000, 20003), UserConnTimeout: 5, HeartbeatTimeout: -1})
+		w.StartBackend(8000, "echo")
+		p := &v1.STCPProxyConfig{}
+		p.Name, p.Type, p.LocalIP, p.LocalPort, p.Secretkey = "p", "stcp", "127.0.0.1", 8000, sk
+		p.Transport.UseEncryption, p.Transport.UseCompression = pEnc, pComp
+		cl := w.StartClient("owner", "", []v1.ProxyConfigurer{p}, nil, nil)
+		if !w.AwaitRunning(cl, 30*time.Second, "p") {
+			vs.Fail("setup: proxy not running")
+			return
+		}
+		v := &v1.STCPVisitorConfig{}
+		v.Name, v.Type, v.ServerName, v.SecretKey, v.BindAddr, v.BindPort = "vp", "stcp", "p", sk, "127.0.0.1", 6000
+		v.Transport.UseEncryption, v.Transport.UseCompression = vEnc, vComp
+		w.StartClient("visitor", "", nil, []v1.VisitorConfigurer{v}, nil)
+		vs.Block("visitor-listening", func() bool { return w.H.TCPListenerOn(6000) != nil || x.Now() > 60*time.Second })
+		w.Quiesce()
+		u, err := w.H.DialFrom("10.8.3.1:4200", "127.0.0.1:6000")
+		if err != nil {
+			vs.Fail("realvisitor %s: cannot reach the visitor's port: %v", flags, err)
+			return
+		}
+		exchange := func(tag string) bool {
+			m := []byte("<<" + tag + " " + strings.Repeat("y", 900) + ">>")
+			if _, err := u.Write(m); err != nil {
+				vs.Fail("real visitor (flags %s): user write (%s) failed: %v", flags, tag, err)
+				return false
+			}
+			buf := make([]byte, len(m))
+			if _, idle, err := u.ReadFullOrIdle(buf); idle || err != nil {
+				vs.Fail("real visitor (flags %s): message %s did not come back through the admitted stream (idle=%v err=%v)", flags, tag, idle, err)
+				return false
+			}
+			if !bytes.Equal(buf, m) {
+				vs.Fail("real visitor (flags %s): message %s altered", flags, tag)
+				return false
+			}
+			return true
+		}
+		if exchange("before the pause") {
+			vs.BlockFor("pause", 75*time.Second, func() bool { return false })
+			exchange("after 75 s of silence")
+		}
+		u.Close()
+		w.Quiesce()
+		w.StopAll()
+	}
+}
+
 func scenarios() {
 	vs.ScenarioFactory = func(name string) *vs.Scenario {
 		s := &vs.Scenario{Name: name, Horizon: 1000 * time.Second, MaxSteps: 200000, NoEarlyTick: true, End: sw.StdEnd}
@@ -378,6 +436,8 @@ func scenarios() {
 			s.Body = scVisitor(f[1], f[2], f[3], f[4], f[5], f[6])
 		case "t":
 			s.Body = scTransparent(f[1], f[2])
+		case "rv":
+			s.Body = scRealVisitor(f[1])
 		case "x":
 			s.Body = scXTCP(f[1], f[2], f[3], f[4], f[5] == "pre")
 		case "race":
@@ -394,7 +454,7 @@ func main() {
 	if c == nil {
 		return
 	}
-	c.Rule("E1: exhaustive product of visitor messages (proxy type x allow list x visitor user x proxy name x signature x run id) and NAT-hole requests (allow list x user x proxy x signature x pre-check) against the real frps, each compared with 'admitted iff signed with the proxy's key and user allowed'; 16 enc/comp combinations x 3 payload shapes end to end; races of a visitor with registration / close / owner disconnect under deviation-bounded DFS; non-trivial = distinct end state / observation trace")
+	c.Rule("E1: exhaustive product of visitor messages (proxy type x allow list x visitor user x proxy name x signature x run id) and NAT-hole requests (allow list x user x proxy x signature x pre-check) against the real frps, each compared with 'admitted iff signed with the proxy's key and user allowed'; 16 enc/comp combinations x 3 payload shapes end to end (scripted visitor), and the same 16 combinations with a real frpc as owner and a real frpc as visitor, the stream used again after 75 s of silence; races of a visitor with registration / close / owner disconnect under deviation-bounded DFS; non-trivial = distinct end state / observation trace")
 	pool := vs.GetPool(c.Workers)
 	var names []string
 	for _, pt := range []string{"stcp", "sudp"} {
@@ -430,6 +490,9 @@ func main() {
 				}
 			}
 		}
+	}
+	for f := 0; f < 16; f++ {
+		names = append(names, fmt.Sprintf("rv/%04b", f))
 	}
 	for f := 0; f < 16; f++ {
 		for _, pl := range []string{"short", "zeros", "mixed"} {
